@@ -57,8 +57,15 @@ def fp_event(key, origin):
         okmd5 = by.get('MD5') == 'MD5:' + ':'.join(hx[i:i + 2] for i in range(0, 32, 2))
     if d[0] == 'ok':
         okkh = d[1].get('known_hosts') == base64.b64encode(blob).decode()
+    # the blob as a peer would receive it: parsed again, the fingerprint is still the digest of these bytes
+    reparsed_ok = True
+    o2, res, _ = call(type(key).parse_exact_size, blob)
+    if o2 == 'ok' and hasattr(res, 'fingerprints'):
+        f2 = call(lambda k: k.fingerprints, res)
+        by2 = {getattr(k, 'name', str(k)): v for k, v in f2[1].items()} if f2[0] == 'ok' else {}
+        reparsed_ok = by2.get('SHA2_256') == 'SHA256:' + base64.b64encode(hashlib.sha256(blob).digest()).decode()
     return {'ev': 'fp', 'kind': kind, 'abs': a, 'key_bytes': list(blob), 'sha256_ok': ok256, 'sha1_ok': ok1, 'md5_ok': okmd5,
-            'known_hosts_ok': okkh, 'origin': origin, 'cls': type(key).__name__}
+            'known_hosts_ok': okkh, 'reparsed_ok': bool(reparsed_ok), 'parse': o2, 'origin': origin, 'cls': type(key).__name__}
 
 
 def wire_fp_events(rep, thorough):
